@@ -831,6 +831,11 @@ func (d *Decoder) decodeSliceTo(v reflect.Value) error {
 		}
 	}
 
+	if v.Kind() == reflect.Slice && v.IsNil() {
+		// An empty list is an empty slice, not a nil one (nil is what null decodes to).
+		v.Set(reflect.MakeSlice(v.Type(), 0, 0))
+	}
+
 	return nil
 }
 
